@@ -11,7 +11,7 @@ pub const BLOCKED: &str = "MOCK-BLOCKED";
 pub enum ByteItem { Byte(u8), WouldBlock, Error, Interrupted, Eof }
 
 #[derive(Default)]
-pub struct ByteScript { pub rx: VecDeque<ByteItem>, pub dry_reads: usize, pub tx: Vec<u8>, pub wresp: VecDeque<char>, pub io_resp: VecDeque<IoResp>, pub flush_ok: bool, pub chunk: usize }
+pub struct ByteScript { pub rx: VecDeque<ByteItem>, pub dry_reads: usize, pub tx: Vec<u8>, pub wresp: VecDeque<char>, pub io_resp: VecDeque<IoResp>, pub flush_ok: bool, pub chunk: usize, pub flushes: usize }
 #[derive(Clone, Copy, Debug)]
 pub enum IoResp { Wrote(usize), Interrupted, Error }
 pub type Shared = Arc<Mutex<ByteScript>>;
@@ -21,7 +21,7 @@ pub struct UsartDev(pub Shared);
 impl embedded_hal::serial::Read<u8> for UsartDev {
     type Error = ();
     fn read(&mut self) -> nb::Result<u8, ()> {
-        let mut s = self.0.lock().unwrap();
+        let mut s = self.0.lock().unwrap_or_else(|e| e.into_inner());
         match s.rx.pop_front() {
             Some(ByteItem::Byte(b)) => Ok(b),
             Some(ByteItem::WouldBlock) => Err(nb::Error::WouldBlock),
@@ -33,7 +33,7 @@ impl embedded_hal::serial::Read<u8> for UsartDev {
 impl embedded_hal::serial::Write<u8> for UsartDev {
     type Error = ();
     fn write(&mut self, b: u8) -> nb::Result<(), ()> {
-        let mut s = self.0.lock().unwrap();
+        let mut s = self.0.lock().unwrap_or_else(|e| e.into_inner());
         match s.wresp.pop_front() { None | Some('a') => { s.tx.push(b); Ok(()) } Some('.') => Err(nb::Error::WouldBlock), _ => Err(nb::Error::Other(())) }
     }
     fn flush(&mut self) -> nb::Result<(), ()> { Ok(()) }
@@ -43,7 +43,7 @@ impl embedded_hal::serial::Write<u8> for UsartDev {
 pub struct SerialDev(pub Shared);
 impl io::Read for SerialDev {
     fn read(&mut self, buf: &mut [u8]) -> io::Result<usize> {
-        let mut s = self.0.lock().unwrap();
+        let mut s = self.0.lock().unwrap_or_else(|e| e.into_inner());
         if buf.is_empty() { return Ok(0); }
         match s.rx.front().copied() {
             None => { s.dry_reads += 1; if s.dry_reads > 1 { panic!("{}", BLOCKED); } Err(io::Error::new(io::ErrorKind::TimedOut, "dry")) }
@@ -62,7 +62,7 @@ impl io::Read for SerialDev {
 }
 impl io::Write for SerialDev {
     fn write(&mut self, buf: &[u8]) -> io::Result<usize> {
-        let mut s = self.0.lock().unwrap();
+        let mut s = self.0.lock().unwrap_or_else(|e| e.into_inner());
         match s.io_resp.pop_front() {
             None => { s.tx.extend_from_slice(buf); Ok(buf.len()) }
             Some(IoResp::Wrote(n)) => { let k = n.min(buf.len()); s.tx.extend_from_slice(&buf[..k]); Ok(k) }
@@ -70,7 +70,7 @@ impl io::Write for SerialDev {
             Some(IoResp::Error) => Err(io::Error::new(io::ErrorKind::Other, "io")),
         }
     }
-    fn flush(&mut self) -> io::Result<()> { if self.0.lock().unwrap().flush_ok { Ok(()) } else { Err(io::Error::new(io::ErrorKind::Other, "flush")) } }
+    fn flush(&mut self) -> io::Result<()> { let mut s = self.0.lock().unwrap_or_else(|e| e.into_inner()); s.flushes += 1; if s.flush_ok { Ok(()) } else { Err(io::Error::new(io::ErrorKind::Other, "flush")) } }
 }
 use serialport::*;
 impl SerialPort for SerialDev {
@@ -93,14 +93,14 @@ pub struct CanDev(pub Arc<Mutex<CanScript>>);
 unsafe impl bxcan::Instance for CanDev {
     const REGISTERS: *mut bxcan::RegisterBlock = std::ptr::null_mut();
     fn sim_receive(&mut self) -> nb::Result<bxcan::Frame, ()> {
-        let mut s = self.0.lock().unwrap();
+        let mut s = self.0.lock().unwrap_or_else(|e| e.into_inner());
         match s.rx.pop_front() {
             Some(CanItem::Frame(f)) => Ok(f), Some(CanItem::WouldBlock) => Err(nb::Error::WouldBlock), Some(CanItem::Overrun) => Err(nb::Error::Other(())),
             None => { s.dry_reads += 1; if s.dry_reads > 1 { panic!("{}", BLOCKED); } Err(nb::Error::WouldBlock) }
         }
     }
     fn sim_transmit(&mut self, f: &bxcan::Frame) -> nb::Result<Option<bxcan::Frame>, core::convert::Infallible> {
-        let mut s = self.0.lock().unwrap();
+        let mut s = self.0.lock().unwrap_or_else(|e| e.into_inner());
         match s.tresp.pop_front() { None | Some('s') => { s.tx.push(f.clone()); Ok(None) } Some('.') => Err(nb::Error::WouldBlock), _ => { s.tx.push(f.clone()); Ok(Some(f.clone())) } }
     }
 }
